@@ -348,7 +348,9 @@ class PyDev:
         self.mp = dev["mp"]
         self.props = dict(dev["props"])
         self.rw = set(dev["rw"])
-        self.faults = {(i, bool(f)): s for i, f, s in dev["faults"]}
+        self.faults = {}
+        for i, f, st in dev["faults"]:
+            self.faults.setdefault((i, bool(f)), st)  # the first entry for a (command index, phase) wins
         self.hid = hid
         self.sb = b""
         self.log = []
@@ -875,6 +877,9 @@ def run_case(ck, s, drv, case, live_cache=None, strict_from=None):
                 shown = int(res.split(":")[2]) if res.startswith("E:cmd:") else st
                 if dev_st is not None and res.startswith(("ok:", "E:cmd:")) and shown != dev_st:
                     viol.append(("status_code / McuBootCommandError value is not the status the device sent", {"host": shown, "device": dev_st}))
+        if (not nofault) and i == fault_op and fault["kind"] in ("nak", "abort") and not hid and is_success(res, st) and op["op"] != "open":
+            viol.append(("the device answered a frame of this operation with NAK/ABORT (it did not accept it) but the operation reports success",
+                         {"fault": fault["kind"], "result": res[:40]}))
         for what, obs in viol:
             if strict:
                 s.expect(False, {"case": case, "op_index": i}, what, obs, None)
@@ -885,7 +890,9 @@ def run_case(ck, s, drv, case, live_cache=None, strict_from=None):
                 if len(lst) < 40:
                     lst.append({"fault": fault, "op_index": i, "fault_op": fault_op, "op": op["op"], "what": what, "cfg": cfg})
     if nofault:
-        if leftover and not (dev["dummy"] >= 50 and any(o["op"] == "open" for o in ops)):
+        # (a device with a packet size below McuBoot's 32-byte fallback refuses the packets sent after a failed size query
+        #  and keeps answering: by construction of the stub, not a protocol effect)
+        if leftover and not (dev["dummy"] >= 50 and any(o["op"] == "open" for o in ops)) and not (pydev.bad_packets and dev["mp"] < 32):
             s.expect(False, {"case": case}, "without any fault the host left bytes of the device unread", leftover, 0)
         # final device state: python reference fed by the REAL host's writes vs the Lean reference device driven by the model host
         want = f"mem={hx(pydev.mem)} sb={hx(pydev.sb)} ncmd={pydev.ncmd}"
@@ -1095,7 +1102,7 @@ def run(ck):
     s1 = ck.stream("sequences", "random configurations (serial strict/partial reads, HID plain/UsbDevice, cmd_exception on/off) x reference devices "
                    "(memory 64 B..2 KiB quick / 64 KiB thorough, max packet {32,56,512,1016,1,4,7,33}, HID padding, ping dummy bytes 0..50, forced device error statuses "
                    "in the initial or final response) x sequences of 1..8 operations with lengths {0,1,mp-1,mp,mp+1,2mp,2mp+1,...}; non-trivial = distinct case")
-    n_seq = ck.budget(500, 6000)
+    n_seq = ck.budget(400, 5000)
     for i in range(n_seq):
         cfg = gen_cfg(rng)
         big = (not ck.quick) and i % 40 == 0
@@ -1119,7 +1126,7 @@ def run(ck):
                    "(start/length corruption, byte deletion/insertion, dropped frame, HID payload flips); non-trivial = distinct (case, fault)")
     soft_total = 0
     n_fault = 0
-    cap = ck.budget(9000, 250000)
+    cap = ck.budget(7000, 150000)
     fi = 0
     while n_fault < cap and fi < ck.budget(400, 6000):
         # short sequences over small packets so that every position of the stream can be visited
